@@ -34,6 +34,7 @@ func c11(r *R) {
 	c11By(r, L)
 	c11Union(r)
 	c11LongRuns(r)
+	c11Aliased(r)
 }
 
 // c11LongRuns: inputs with MANY distinct values. Every slice that is a run of n distinct values
@@ -41,10 +42,60 @@ func c11(r *R) {
 // on a grid -- paired with second arguments that keep everything, drop one value, or keep only the
 // repeated one. The small-alphabet enumeration above cannot reach result sizes where an implementation
 // switches strategy (a linear scan below a threshold, a map index above it).
+// c11Aliased: the arguments of one call may be windows of one another (a list and its own prefix, suffix
+// or middle): the result is what the same call returns on independent copies, and the arguments are left
+// as they were. Every slice up to length 5 over 3 values x every window of it, in either argument position.
+func c11Aliased(r *R) {
+	ident := func(v int) int { return v }
+	for _, s0 := range enum.AllSlices([]int{1, 2, 3}, 5) {
+		n := len(s0)
+		for i := 0; i <= n; i++ {
+			for j := i; j <= n; j++ {
+				type call struct {
+					name string
+					f    func(a, b []int) []int
+				}
+				calls := []call{
+					{"Difference", func(a, b []int) []int { return gogu.Difference(a, b) }},
+					{"DifferenceBy", func(a, b []int) []int { return gogu.DifferenceBy(a, b, ident) }},
+					{"Intersection", func(a, b []int) []int { return gogu.Intersection(a, b) }},
+					{"IntersectionBy", func(a, b []int) []int { return gogu.IntersectionBy(ident, a, b) }},
+					{"Without", func(a, b []int) []int { return gogu.Without[int, int](a, b...) }},
+					{"Union", func(a, b []int) []int { u, _ := gogu.Union[int]([]any{a, b}); return u }},
+				}
+				for _, c := range calls {
+					for pos := 0; pos < 2; pos++ {
+						s := cp(s0)
+						a, b := s, s[i:j]
+						ca, cb := cp(s0), cp(s0[i:j])
+						if pos == 1 {
+							a, b = s[i:j], s
+							ca, cb = cp(s0[i:j]), cp(s0)
+						}
+						var got, want []int
+						p1, _ := enum.Try(func() { got = c.f(a, b) })
+						p2, _ := enum.Try(func() { want = c.f(ca, cb) })
+						r.Eval(c.name + "/aliased-arguments")
+						wit := fmt.Sprintf("%s with s=%v and the window s[%d:%d] as argument %d", c.name, s0, i, j, 2-pos)
+						if p1 != p2 || (!p1 && !eqSlice(got, want)) {
+							r.Bad(c.name+"/aliased-arguments-change-the-result", wit, "got %v (panic=%t), on independent copies %v (panic=%t)", got, p1, want, p2)
+						}
+						if !eqSlice(s, s0) {
+							r.Bad(c.name+"/aliased-arguments-modified", wit, "the list became %v", s)
+						}
+					}
+				}
+			}
+		}
+	}
+	r.Nontrivial("aliased-a")
+	r.Nontrivial("aliased-b")
+}
+
 func c11LongRuns(r *R) {
-	N := 48
+	N := 160 // past 64 and 128 distinct values (a table pre-sized for so many, a small-size fast path)
 	if thorough {
-		N = 96
+		N = 320
 	}
 	ident := func(v int) int { return v }
 	half := func(v int) int { return v / 2 }
@@ -105,6 +156,16 @@ func c11LongRuns(r *R) {
 					// the result is compared as a set)
 					if d := gogu.Duplicate(cp(s)); !sameSet(d, one) || len(d) != 1 {
 						r.Bad("Duplicate/not-exactly-the-repeated-values/long-run", wit, "Duplicate = %v, want %v", d, one)
+					}
+					firstAt := -1
+					for i, v := range s {
+						if v == base[vi] {
+							firstAt = i
+							break
+						}
+					}
+					if d := gogu.DuplicateWithIndex(cp(s)); len(d) != 1 || d[base[vi]] != firstAt {
+						r.Bad("DuplicateWithIndex/not-exactly-the-repeated-values/long-run", wit, "DuplicateWithIndex = %v, want {%d: %d}", d, base[vi], firstAt)
 					}
 					// images collide pairwise under v/2: UniqueBy keeps the first element of each image
 					var wantH []int
